@@ -402,7 +402,7 @@ def finish(prop, tier, seed, t0, cov, violations, known_hits, reason, results):
     if cov["evaluations"] > 0 and PLANS[prop] and all(j.get("exhaustive") for j in PLANS[prop] if tier in j.get("tiers", ("quick", "thorough"))):
         coverage["exhaustive"] = True
     ev = {"property_id": prop, "tier": tier, "seed": seed, "level": level, "coverage": coverage,
-          "assumptions": ASSUMPTIONS.get(prop, []) + ASSUMPTIONS["*"], "wall_s": wall, "violations": len(violations)}
+          "assumptions": [a for a in ASSUMPTIONS.get(prop, []) + ASSUMPTIONS["*"] if isinstance(a, str)], "wall_s": wall, "violations": len(violations)}
     with open(os.path.join(EVID, prop + ".json"), "w") as fh:
         json.dump(ev, fh, indent=1, sort_keys=True)
     log("[%s] %s tier=%s seed=%d evaluations=%d distinct=%d wall=%.1fs other=%s" % (prop, verdict, tier, seed, cov["evaluations"], len(cov["distinct"]), wall, cov["other_properties_observed"]))
